@@ -19,8 +19,14 @@ SCALAR_ATTRS = {"iteration", "_iteration", "period", "peak", "max_recompute", "s
 SCALAR_ARRAYS = {"max_pilot", "min_pilot", "voltages", "phases", "is_continuous", "pilot_signals", "charging_rates", "constraint_limits",
                  "max_pilot_signals", "min_pilot_signals", "_voltages", "_phase_angles", "magnitudes", "station_ids", "constraint_ids",
                  "constraint_index"}
-COPYING = {"deepcopy", "array", "tolist", "copy", "dict", "list", "tuple", "set", "sorted", "float", "int", "str", "bool", "len", "sum",
+COPYING = {"deepcopy", "array", "tolist", "float", "int", "str", "bool", "len", "sum",
            "max", "min", "abs", "zeros", "ones", "timedelta", "round", "any", "all", "isclose", "allclose"}
+# calls that build a new *outer* container but keep the elements: the result is fresh only if the elements are immutable
+SHALLOW = {"list", "tuple", "dict", "set", "sorted", "copy", "reversed", "OrderedDict", "deque"}
+# containers (by terminal name) whose elements are themselves mutable objects: python containers of arrays / simulator objects, and
+# two-dimensional arrays (iterating or list()-ing them yields row views)
+NESTED_OBJECTS = {"allowable_pilots", "allowable_rates", "_EVSEs", "ev_history", "event_history", "waiting_queue", "_queue", "queue", "schedule_history"}
+NESTED_ROWS = {"constraint_matrix", "pilot_signals", "charging_rates"}
 ALIAS_PRESERVING = {"asarray", "view", "values", "keys", "items", "ravel", "atleast_1d", "atleast_2d", "reshape", "transpose", "squeeze",
                     "get", "setdefault", "pop", "__getitem__", "iter", "next", "reversed", "enumerate", "zip"}
 HOLDERS = {"SessionInfo", "InfrastructureInfo", "Constraint"}
@@ -127,6 +133,19 @@ class Escape:
                 return self.holder([self.cl(a, m) for a in e.args] + [self.cl(k.value, m) for k in e.keywords])
             if nm in COPYING:
                 return FRESH
+            if nm in SHALLOW:
+                arg = e.args[0] if e.args else (f.value if isinstance(f, ast.Attribute) else None)
+                if arg is None:
+                    return FRESH
+                k = self.cl(arg, m)
+                if k not in (ALIAS, ARG):
+                    return FRESH
+                base = arg
+                while isinstance(base, ast.Call) and call_name(base) in ("values", "items", "__val__", "__elem__") and (base.args or isinstance(base.func, ast.Attribute)):
+                    base = base.func.value if isinstance(base.func, ast.Attribute) else base.args[0]
+                tn = base.attr if isinstance(base, ast.Attribute) else (base.id if isinstance(base, ast.Name) else None)
+                nested = tn in NESTED_OBJECTS or (tn in NESTED_ROWS and nm != "copy")
+                return k if nested else FRESH
             if nm in ALIAS_PRESERVING:
                 recv = self.cl(f.value, m) if isinstance(f, ast.Attribute) else worst(self.cl(a, m) for a in e.args)
                 return recv if recv in (ALIAS, ARG) else FRESH
